@@ -495,6 +495,22 @@ def scan_assumptions(text):
         hits = re.findall(p, text)
         if hits:
             names = sorted(set(h for h in hits if isinstance(h, str) and h))
+            if name == "external_body":
+                # name the opaque items: functions with an ASSUMED contract (those with an `ensures`/`requires`), functions without one, opaque types
+                fns_c, fns_n, types = set(), set(), set()
+                for m in re.finditer(r"external_body\]\s*(?:#\[[^\]]*\]\s*)*(?:pub(?:\([a-z]+\))?\s+)?(?:(?:proof|exec)\s+)?(fn|struct)\s+(\w+)([^{;]*)", text):
+                    kind, nm, sig = m.groups()
+                    if kind == "struct":
+                        types.add(nm)
+                    elif re.search(r"\b(ensures|requires)\b", sig):
+                        fns_c.add(nm)
+                    else:
+                        fns_n.add(nm)
+                out.append("external_body x%d: assumed contracts on %s | opaque functions without a contract: %s | opaque types: %s" % (
+                    len(hits), ", ".join(sorted(fns_c)[:60]) or "-", ", ".join(sorted(fns_n)[:40]) or "-", ", ".join(sorted(types)[:40]) or "-"))
+                continue
+            if name == "assume_specification":
+                names = sorted(set(re.findall(r"assume_specification(?:<[^\[]*>)?\s*\[\s*([^\]]+?)\s*\]", text)))
             out.append("%s x%d%s" % (name, len(hits), (": " + ", ".join(names[:40])) if names else ""))
     return out
 
